@@ -492,7 +492,7 @@ def _gen_str(constant_provider: ConstantProvider) -> cst.BaseExpression:
         seeded = constant_provider.get_constant_for(str)
         if seeded is not None:
             return cst.SimpleString(repr(seeded))
-    length = randomness.next_int(0, tc.string_length)
+    length = randomness.next_int(0, max(1, tc.string_length))
     return cst.SimpleString(repr(randomness.next_string(length)))
 
 
@@ -530,7 +530,9 @@ def _gen_list(
     """
     if randomness.next_bool():
         return cst.List(elements=[])
-    count = randomness.next_int(1, min(3, config.configuration.test_creation.collection_size) + 1)
+    count = randomness.next_int(
+        1, max(1, min(3, config.configuration.test_creation.collection_size)) + 1
+    )
     elems = [
         cst.Element(value=_element_value(constant_provider, element_pool)) for _ in range(count)
     ]
@@ -555,7 +557,9 @@ def _gen_set(
     """
     if randomness.next_bool():
         return cst.Call(func=cst.Name("set"))
-    count = randomness.next_int(1, min(3, config.configuration.test_creation.collection_size) + 1)
+    count = randomness.next_int(
+        1, max(1, min(3, config.configuration.test_creation.collection_size)) + 1
+    )
     elems = [
         cst.Element(value=_element_value(constant_provider, element_pool)) for _ in range(count)
     ]
@@ -577,7 +581,9 @@ def _gen_tuple(
     """
     if randomness.next_bool():
         return cst.Tuple(elements=[])
-    count = randomness.next_int(1, min(3, config.configuration.test_creation.collection_size) + 1)
+    count = randomness.next_int(
+        1, max(1, min(3, config.configuration.test_creation.collection_size)) + 1
+    )
     raw_elems = [
         cst.Element(value=_element_value(constant_provider, element_pool)) for _ in range(count)
     ]
